@@ -240,10 +240,19 @@ class CachedStore(Entity):
             key: The key to invalidate.
         """
         if key in self._cache:
+            if key in self._dirty_keys:
+                # Write-back: the cache holds the only copy of this write
+                self._backing_store.put_sync(key, self._cache[key])
+                self._writebacks += 1
             self._cache_remove(key)
 
     def invalidate_all(self) -> None:
         """Clear the entire cache."""
+        for key in self._dirty_keys:
+            if key in self._cache:
+                # Write-back: the cache holds the only copy of this write
+                self._backing_store.put_sync(key, self._cache[key])
+                self._writebacks += 1
         self._cache.clear()
         self._dirty_keys.clear()
         self._eviction_policy.clear()
